@@ -163,4 +163,64 @@ theorem C07_cycle_error_wrapped (x : Act) (c : Cmd) :
     (x.afterCmd c (.typed 204)).res = (if x.indirect then .typed 204 else .run (.typed 204)) := by
   cases c <;> simp [Act.afterCmd, Act.fail]
 
+/-! ## non-vacuity -/
+
+/-- a task with two independent dependencies, one slot -/
+private def fan : Program :=
+  [{ deps := [1, 2] }, { cmds := [.shell 0 false false] }, { cmds := [.shell 0 false false] }]
+private def one : Flags := { cap := some 1 }
+
+private def fanRun : List Label :=
+  [⟨1, .enter (.top 0) 0⟩, ⟨1, .acquire⟩, ⟨1, .depsRelease⟩,
+   ⟨2, .enter (.dep 1 0) 1⟩, ⟨3, .enter (.dep 1 1) 2⟩,          -- both dependencies start at once
+   ⟨2, .acquire⟩, ⟨2, .depsRelease⟩, ⟨2, .depsReacq⟩, ⟨2, .depsDone .ok⟩, ⟨2, .guardsPassed⟩,
+   ⟨2, .cmdStart 0 none false⟩]
+
+-- the run is accepted; one slot in use, held by the activation inside its shell command
+example : ((replay fan one (init 1) fanRun).map (fun c => (c.tokens, holders c (actIds fanRun), shells c (actIds fanRun))))
+    = some (1, 1, 1) := by decide
+-- the second dependency cannot take a slot while the first one runs its command …
+example : (replay fan one (init 1) (fanRun ++ [⟨3, .acquire⟩])).isNone = true := by decide
+-- … the raw monitor rejects such a log, and accepts the real one
+example : boundOk 1 (fanRun ++ [⟨3, .acquire⟩]) 0 = false := by decide
+example : boundOk 1 fanRun 0 = true := by decide
+-- … but it can with two slots
+example : (replay fan { cap := some 2 } (init 1) (fanRun ++ [⟨3, .acquire⟩])).isSome = true := by decide
+-- a command started without a slot is rejected by `holdMon`
+example : (holdMon.run holdMon.init [.enter (.top 0) 0, .cmdStart 0 none false]).isNone = true := by decide
+
+/-- a task that depends on itself; limit 3 instead of 1000 -/
+private def selfDep : Program := [{ deps := [0] }]
+private def lim3 : Flags := { maxCalls := 3 }
+
+private def selfDepRun : List Label :=
+  [⟨1, .enter (.top 0) 0⟩, ⟨1, .acquire⟩, ⟨1, .depsRelease⟩,
+   ⟨2, .enter (.dep 1 0) 0⟩, ⟨2, .acquire⟩, ⟨2, .depsRelease⟩,
+   ⟨3, .enter (.dep 2 0) 0⟩, ⟨3, .exit⟩,                           -- third call: 204, nothing runs
+   ⟨2, .depsReacq⟩, ⟨2, .depsDone (.typed 204)⟩, ⟨2, .release⟩, ⟨2, .exit⟩,
+   ⟨1, .depsReacq⟩, ⟨1, .depsDone (.typed 204)⟩, ⟨1, .release⟩, ⟨1, .exit⟩]
+
+example : ((replay selfDep lim3 (init 1) selfDepRun).map
+    (fun c => (c.tokens, c.callCount 0, (c.act? 3).map (·.res), (c.act? 1).map (fun x => (x.res, x.phase)))))
+    = some (0, 3, some (.typed 204), some (.typed 204, .done)) := by decide
+-- the third activation cannot take a slot
+example : (replay selfDep lim3 (init 1) (selfDepRun.take 7 ++ [⟨3, .acquire⟩])).isNone = true := by decide
+
+/-- a task that calls itself through a `task:` command -/
+private def selfCall : Program := [{ cmds := [.call 0 false] }]
+
+private def selfCallRun : List Label :=
+  [⟨1, .enter (.top 0) 0⟩, ⟨1, .acquire⟩, ⟨1, .depsRelease⟩, ⟨1, .depsReacq⟩, ⟨1, .depsDone .ok⟩, ⟨1, .guardsPassed⟩,
+   ⟨1, .callRelease 0 false⟩,
+   ⟨2, .enter (.call 1 0 false) 0⟩, ⟨2, .acquire⟩, ⟨2, .depsRelease⟩, ⟨2, .depsReacq⟩, ⟨2, .depsDone .ok⟩,
+   ⟨2, .guardsPassed⟩, ⟨2, .callRelease 0 false⟩,
+   ⟨3, .enter (.call 2 0 false) 0⟩, ⟨3, .exit⟩,
+   ⟨2, .callRet 0⟩, ⟨2, .callReacq 0⟩, ⟨2, .release⟩, ⟨2, .exit⟩,
+   ⟨1, .callRet 0⟩, ⟨1, .callReacq 0⟩, ⟨1, .release⟩, ⟨1, .exit⟩]
+
+-- the callee fails with 204, the task named on the command line with 201 wrapping it
+example : ((replay selfCall lim3 (init 1) selfCallRun).map
+    (fun c => (c.tokens, (c.act? 2).map (·.res), (c.act? 1).map (fun x => (x.res, x.phase)))))
+    = some (0, some (.typed 204), some (.run (.typed 204), .done)) := by decide
+
 end Props.C07
